@@ -119,9 +119,13 @@ def run_trees(ctx, run_tree, *, n_random, max_atoms, unary_p=0.3, small_frac=1.0
     step = ctx.nshards * (1 if ctx.tier == "thorough" else 8)
     off = ctx.shard if ctx.tier == "thorough" else ctx.shard + (ctx.seed % 8) * ctx.nshards
     cnt = 0
+    t_small = ctx.elapsed()
     for i, t in enumerate(small_scope_trees(ctx)):
         if i % step != off % step:
             continue
+        if ctx.elapsed() - t_small > (40 if ctx.tier == "quick" else 300):
+            ctx.extra["small_scope_stopped_by_time_budget_after"] = cnt
+            break
         if small_frac < 1.0 and rnd.random() > small_frac:
             continue
         run_tree(t)
